@@ -599,7 +599,66 @@ def lr_alignment(V, first, second):
 
 # ------------------------------------------------------------------------------------------------ instances
 
-FUNCS = {"hc_indices": hc_indices, "hc_wrapper": hc_wrapper, "hc_search_step": hc_search_step, "hc_fix_perm": hc_fix_perm,
+def lr_extract(V, shape):
+    """the requested CPU tensor alignment reaches every live range the allocators will place: the REAL extract_live_ranges_from_cascaded_passes
+    on stand-in subgraphs (cascaded passes with input/intermediate/output tensors; control-flow operators whose `subgraph` attribute holds nested
+    subgraphs, one or two levels deep) with a SYMBOLIC alignment: every tensor of every level gets a live range whose alignment is the requested
+    one, and its lifetime covers the pass that uses it."""
+    import ethosu.vela.live_range as lrm
+    from ethosu.vela.operation import Op
+    from ethosu.vela.tensor import Tensor, MemArea, MemType
+    from ethosu.vela.data_type import DataType
+
+    A = V.int("cpu_tensor_alignment", 16, 256)
+    V.assume(L(A) % 16 == 0)
+
+    class O:
+        def __init__(self, **kw):
+            self.__dict__.update(kw)
+
+    alltens = []
+
+    def tens(name):
+        t = Tensor([1, 4, 4, 3], DataType.int8, name)
+        t.mem_area, t.mem_type = MemArea.Sram, MemType.Scratch
+        alltens.append(t)
+        return t
+
+    def cps(name, ins, outs, inter=(), op=None):
+        return O(name=name, inputs=list(ins), outputs=list(outs), intermediates=list(inter), passes=[O(ops=[op] if op else [])], time=None)
+
+    def leaf(tag, tin):
+        a, b = tens(tag + "_a"), tens(tag + "_b")
+        return O(name=tag, cascaded_passes=[cps(tag + "0", [tin], [a], op=O(type=Op.Relu, attrs={})), cps(tag + "1", [a], [b], inter=[tens(tag + "_tmp")], op=O(type=Op.Relu, attrs={}))],
+                 output_tensors=[b])
+
+    x = tens("x")
+    if shape == "flat":
+        sg = leaf("main", x)
+    else:
+        cond, body = leaf("cond", x), leaf("body", x)
+        if shape == "nested2":
+            inner_c, inner_b = leaf("inner_cond", body.output_tensors[0]), leaf("inner_body", body.output_tensors[0])
+            y2 = tens("inner_out")
+            body.cascaded_passes.append(cps("inner_while", [body.output_tensors[0]], [y2], op=O(type=Op.While, attrs={"subgraph": [inner_c, inner_b]})))
+            body.output_tensors = [y2]
+        y = tens("y")
+        z = tens("z")
+        sg = O(name="main", cascaded_passes=[cps("while", [x], [y], op=O(type=Op.While, attrs={"subgraph": [cond, body]})),
+                                             cps("after", [y], [z], op=O(type=Op.Relu, attrs={}))], output_tensors=[z])
+    with core.shims((lrm, {"max": core.smax, "min": core.smin})):
+        g = lrm.extract_live_ranges_from_cascaded_passes(sg, MemArea.Sram, {MemType.Scratch}, None, A)
+    cl = []
+    for t in alltens:
+        r = g.ranges.get(t)
+        cl.append(("tensor %s has a live range" % t.name, r is not None))
+        if r is not None:
+            cl.append(("live range of %s carries the requested alignment" % t.name, L(r.get_alignment()) == L(A)))
+            cl.append(("live range of %s is non-empty" % t.name, L(r.start_time) <= L(r.end_time)))
+    return cl
+
+
+FUNCS = {"lr_extract": lr_extract, "hc_indices": hc_indices, "hc_wrapper": hc_wrapper, "hc_search_step": hc_search_step, "hc_fix_perm": hc_fix_perm,
          "hc_allocate": hc_allocate, "greedy_step": greedy_step, "greedy_whole": greedy_whole, "verify_rejects": verify_rejects,
          "linear": linear, "lr_alignment": lr_alignment, "dispatch": dispatch}
 
@@ -679,6 +738,8 @@ def instances(tier, seed):
                         out.append(dict(key="linear/%d/%s/a%s" % (n, "".join(map(str, share)), "-".join(map(str, av[:n]))), fn="linear",
                                         params=dict(n=n, share=list(share), aligns=list(av[:n]))))
     out.append(dict(key="lr_alignment", fn="lr_alignment", params=dict(first=None, second=None)))
+    for shape in ("flat", "while", "nested2"):
+        out.append(dict(key="lr_extract/%s" % shape, fn="lr_extract", params=dict(shape=shape)))
     for allocator in ("Greedy", "LinearAlloc", "HillClimb"):
         for alignment in (16, 64, 128):
             for tv in (((0, 1), (1, 2)), ((0, 0), (1, 1), (0, 1))):
